@@ -111,8 +111,26 @@ def _pos(v):
     return v > 0
 
 
-# function filters (Filter): a fixed palette mirrored by the oracles (named functions: they can be pickled)
-PALETTE = {"gt2": _gt2, "le3": _le3, "ne1": _ne1, "pos": _pos}
+def _gt2_int(v):
+    return np.asarray(v > 2).astype(int)
+
+
+def _le3_int(v):
+    return np.asarray(v <= 3) * 1
+
+
+def _ne1_int(v):
+    return np.asarray(v != 1).astype(np.uint8)
+
+
+def _pos_int(v):
+    return np.asarray(v > 0).astype(np.int64)
+
+
+# function filters (Filter): a fixed palette mirrored by the oracles (named functions: they can be pickled); the
+# "_int" spellings answer with 0/1 integers instead of booleans (`(v > 2) * 1`), which the library reads as truth values
+PALETTE = {"gt2": _gt2, "le3": _le3, "ne1": _ne1, "pos": _pos,
+           "gt2_int": _gt2_int, "le3_int": _le3_int, "ne1_int": _ne1_int, "pos_int": _pos_int}
 
 
 def build(cfg, conditions=None):
@@ -201,4 +219,7 @@ def run_transform(case):
                                   np.array_equal(bits(before["matrix"]), bits(after["matrix"])) and
                                   exact_before == exact_after),
         "input_untouched": bool(same_input),
+        # the matrix that was built reports the numbers of the case (whatever the storage type of each criterion)
+        "input_as_given": bool(case.get("nan")) or bool(
+            np.array_equal(before["matrix"], np.array(case["matrix"], dtype=float))),
     }
